@@ -1,5 +1,5 @@
 """C04 write statements have exactly their openCypher effect (CypherWrite.tla Mode C04, harness bin cywrite)."""
-from .cywrite_common import gen, trace_cfg, corrupt_dump, cap
+from .cywrite_common import gen, trace_cfg, corrupt_dump, cap, sim_walks
 
 INV = "C04_NoDangling"
 PROPS = "C04_ConnectedDeleteRefused C04_MergeIdempotent C05_ErrorChangesNothing"
@@ -15,12 +15,12 @@ def run(ctx):
     # label, null, failing expression), REMOVE (property, label), DELETE / DETACH DELETE (nodes, relationships), with RETURN
     scripts = ctx.tlc_gen("MC_CypherWrite", gen("C04", 6, 4, 3, inv=INV, props=PROPS, rich=not q), "cover", timeout=6000, workers=1)
     scripts = cap(ctx, scripts, 4000 if q else 80000, "cover")
-    walks = ctx.tlc_gen("MC_CypherWrite", gen("C04", 8, 6, 6, view=False, emit="", inv=INV + " SimEmit", rich=True),
-                        "walks", simulate=(200 if q else 1500, 7), workers=4, timeout=3000)
+    walks = sim_walks(ctx, gen("C04", 8, 6, 6, view=False, emit="", inv=INV, rich=True, sim=True), "walks", 200 if q else 3000, 8)
     ctx.assume("graphs of <= 6 nodes / 4 relationships grown from the empty graph by the statements themselves; labels {A,B}, keys {k,p}, "
                "integer values; no constraints or indexes (C05 / C11 cover those)",
                "returned rows are compared as bags; the order in which MATCH feeds rows to the write clause is left open",
-               "a stored null and an absent property are not distinguished; WITH pipelines, FOREACH, path MERGE and SET n = {..} are not modelled")
+               "a stored null and an absent property are not distinguished; WITH only as MATCH (n) WITH n <write> (thorough tier and walks); "
+               "FOREACH, path MERGE, MERGE of relationships and SET n = {..} are not modelled")
     for name, ss in (("cover", scripts), ("walks", walks)):
         sp = ctx.write_scripts(name, ss)
         tr = ctx.run_harness("cywrite", sp, name=name, args=["cap=14", "probes=1", "universe=i1,i2,i3"])
